@@ -87,10 +87,10 @@ type c19World struct {
 	remote chain.Key
 	users  []chain.Key
 	// one-to-one voucher pair
-	atomDenom string // ibc/... on the receiving end of pair 0
-	atomERC20 common.Address
-	recorder  common.Address
-	reverter  common.Address
+	atomDenom  string // ibc/... on the receiving end of pair 0
+	atomERC20  common.Address
+	recorder   common.Address
+	reverter   common.Address
 	aliasDenom string
 }
 
